@@ -1,12 +1,84 @@
 (** C01S (sub-check of C01) — the sector-granular writer of the block-device backed
-    block allocator.  Statements only; proofs are in Store/SectorWriterProofs.v. *)
-From BBS Require Import Common.Sx Store.SectorWriter Run.R01S.
+    block allocator (HasSpace/Put, blockDeviceBackedBlockWriter.Write/flush, sharedSector,
+    NewBlockAtLocation).  Statements only; proofs are in Store/SectorWriter*.v.
 
-(** Non-vacuity: two writers sharing a sector (sector size 4), interleaved, both complete. *)
+    The theorems quantify over every sector size >= 1, block size, device, initial cursor
+    without shared sector (NewBlock / NewBlockAtLocation), and every event list accepted by
+    [run]: allocations (guarded by HasSpace, as the store does), Write/flush/abandon steps
+    of any writer in any interleaving. *)
+From BBS Require Import Common.Sx Store.SectorWriter Store.SectorWriterProofs Store.SectorWriterSpec
+  Store.SectorWriterCommute Store.SectorWriterInv Run.R01S.
+
+(** Byte ranges handed out by successive allocations are in order and pairwise disjoint,
+    start at or above the initial cursor, end within the block; HasSpace is exactly "fits". *)
+Theorem allocations_disjoint : forall c dev b0 tr s,
+  1 <= c_sector c -> cursor_wf c b0 ->
+  run c (init_state dev b0) tr = Some s ->
+  (forall i j ti tj, i < j -> nth_error (st_threads s) i = Some ti -> nth_error (st_threads s) j = Some tj ->
+     t_start ti + t_size ti <= t_start tj) /\
+  (forall i ti, nth_error (st_threads s) i = Some ti ->
+     cpos c b0 <= t_start ti /\ t_start ti + t_size ti <= c_spb c * c_sector c) /\
+  (forall b size, has_space c b size = true <-> cpos c b + size <= c_spb c * c_sector c).
+Proof. exact allocations_disjoint_proof. Qed.
+Print Assumptions allocations_disjoint.
+
+(** NewBlockAtLocation(_, r): every later allocation starts at or above r, in fact at or
+    above r rounded up to a sector boundary, so no sector holding restored data is rewritten
+    (together with [writer_writes_only_own_sectors]). *)
+Theorem restored_offset_rounds_up : forall c dev r tr s i ti,
+  1 <= c_sector c ->
+  run c (init_state dev (new_block_at c r)) tr = Some s ->
+  nth_error (st_threads s) i = Some ti ->
+  r <= t_start ti /\
+  (exists m, cpos c (new_block_at c r) = m * c_sector c /\ m * c_sector c <= t_start ti).
+Proof. exact restored_offset_rounds_up_proof. Qed.
+Print Assumptions restored_offset_rounds_up.
+
+(** Every device write of writer k lies within the sectors overlapping its byte range
+    [t_start, t_start + t_size) (an empty range inside a sector counts as touching that sector). *)
+Theorem writer_writes_only_own_sectors : forall c dev b0 tr s e s' log k t,
+  1 <= c_sector c -> b_shared b0 = None ->
+  run c (init_state dev b0) tr = Some s ->
+  step c s e = Some (s', log) -> ev_thread e = Some k -> nth_error (st_threads s) k = Some t ->
+  Forall (fun w => (c_base c + t_start t / c_sector c) * c_sector c <= fst w /\
+                   fst w + length (snd w) <=
+                   c_base c * c_sector c + (t_start t + t_size t + c_sector c - 1) / c_sector c * c_sector c) log.
+Proof. exact writer_writes_only_own_sectors_proof. Qed.
+Print Assumptions writer_writes_only_own_sectors.
+
+(** Steps of two different writers that touch no common shared-sector image and whose device
+    writes hit disjoint byte ranges commute (same final state, same device writes per step). *)
+Theorem private_write_commutes : forall c s ea eb ka kb ta tb sa la sb lb,
+  ev_thread ea = Some ka -> ev_thread eb = Some kb -> ka <> kb ->
+  nth_error (st_threads s) ka = Some ta -> nth_error (st_threads s) kb = Some tb ->
+  (forall i, In i (ids_of (t_w ta)) -> ~ In i (ids_of (t_w tb))) ->
+  step c s ea = Some (sa, la) -> step c s eb = Some (sb, lb) ->
+  disjoint_writes la lb ->
+  exists sab, step c sa eb = Some (sab, lb) /\ step c sb ea = Some (sab, la).
+Proof. exact private_write_commutes_gen. Qed.
+Print Assumptions private_write_commutes.
+
+(** Non-vacuity: two writers sharing a sector (sector size 4), interleaved, both complete;
+    three writers in one sector, the middle one abandoned; a restored block. *)
 Example shared_sector_example :
   let c := {| c_sector := 4; c_spb := 2; c_base := 0 |} in
   option_map st_dev
     (run c (init_state (repeat 9%Z 8) new_block)
        [EAlloc 3; EAlloc 3; EWrite 1 [4;5]%Z; EWrite 0 [1;2;3]%Z; EWrite 1 [6]%Z; EFlush 1; EFlush 0])
   = Some [1;2;3;4;5;6;0;0]%Z.
+Proof. vm_compute. reflexivity. Qed.
+
+Example abandoned_neighbour_example :
+  let c := {| c_sector := 4; c_spb := 1; c_base := 1 |} in
+  option_map st_dev
+    (run c (init_state (repeat 9%Z 12) new_block)
+       [EAlloc 1; EAlloc 1; EAlloc 2; EWrite 2 [7;8]%Z; EFlush 2; EAbandon 1; EWrite 0 [5]%Z; EFlush 0])
+  = Some [9;9;9;9; 5;0;7;8; 9;9;9;9]%Z.
+Proof. vm_compute. reflexivity. Qed.
+
+Example restored_example :
+  let c := {| c_sector := 4; c_spb := 3; c_base := 0 |} in
+  option_map (fun s => (st_dev s, map t_start (st_threads s)))
+    (run c (init_state (repeat 9%Z 12) (new_block_at c 5)) [EAlloc 2; EWrite 0 [1;2]%Z; EFlush 0])
+  = Some ([9;9;9;9; 9;9;9;9; 1;2;0;0]%Z, [8]).
 Proof. vm_compute. reflexivity. Qed.
